@@ -75,6 +75,29 @@ CLAIMED = {
         "design_ref": "DESIGN.md §8 C05",
         "technique": "Lean 4 theorems + decide-checked obligations on T0-generated tables + T1 correspondence + bash-grounded failing-input search",
     },
+    "C06": {
+        "text": "Proof (Lean 4): over a total model of main() in which every external answer (cwd resolution, config loading, analysis, tokenisation, log sinks) is an arbitrary oracle that may also raise, and stdin is any byte string "
+        "(undecodable / not JSON / a JSON value of any shape): a pre-execution event always yields exactly one JSON object (hook_one_object), any output is one object, one feedback line or nothing, an allow answer implies a completed analysis "
+        "that said allow, an MCP rule that allows, or a bypass mode (hook_allow_only_if + analysis_provenance), and every failure path (exception anywhere inside the try, unusable cwd, config error) yields {} or ask. "
+        "That nothing escapes the try and the process exits 0 is a T0 obligation on the shape of main() re-derived from the source on every run. Tied by subprocess correspondence and fault injection from outside the source.",
+        "design_ref": "DESIGN.md §8 C06",
+        "technique": "Lean 4 theorems over a total hook model (Option monad for Python exceptions) + T0 shape obligations on main() + subprocess correspondence + fault injection",
+    },
+    "C12": {
+        "text": "Proof (Lean 4): in the hook model the verdict (Result) is computed by functions that do not take the host mode as an argument; the mode only selects the route to the command text and the envelope. "
+        "Theorems: mode_precedence / explicit_order (flag or variable first, claude > gemini > cursor, input shape otherwise), verdict_mode_free (decision and reason read from any two hosts' envelopes coincide), "
+        "shell_route_mode_free (Cursor-shaped and Claude/Gemini-shaped inputs with the same command reach the same result), the three envelope_* equalities (exact fields), output_is_envelope, mismatched_shape_defers. "
+        "Tied by subprocess correspondence over the flag/variable cross product; failing-input search compares the three hosts on the same command and validates envelope schemas.",
+        "design_ref": "DESIGN.md §8 C12",
+        "technique": "Lean 4 theorems over the hook model + T0 name tables + subprocess correspondence + three-host differential search",
+    },
+    "C19": {
+        "text": "Proof (Lean 4): for every stdin and environment a PostToolUse event prints nothing, one duck-prefixed message, or {} and never a permission decision (post_output, post_no_decision); the message is that of the last matching "
+        "after / after-mcp rule (R3); the rule lookups of the analysis and the MCP lookup do not read the after rules, and deleting or adding after lines anywhere in a config text leaves rules, redirect rules, aliases and mcp rules unchanged "
+        "(after_rules_invisible, after_lines_invisible). tokenize() is an oracle of the model (tied by correspondence). Search: real hook on PostToolUse inputs against an independently computed expected line; pre-execution stdout with vs without after lines.",
+        "design_ref": "DESIGN.md §8 C19",
+        "technique": "Lean 4 theorems over the hook model and the parser fold + subprocess correspondence + independent expected-feedback oracle",
+    },
 }
 
 PENDING_REASON = "check not built yet in this round (DESIGN.md §10 build order); no technique other than Lean proof + correspondence is substituted"
